@@ -537,12 +537,29 @@ pub fn check_c19(ctx: &mut Ctx, enc: &Encoded) -> R {
 /// C09, the "more frames than a seek table can hold" case: 932 100 frames of 16 silent samples,
 /// undeclared length, a seek point requested for every frame, table to be carved from padding
 pub fn run_c09_big(ctx: &mut Ctx) -> R {
-    use flac_codec::encode::{FlacSampleWriter, Options};
-    let frames: usize = 932_100;
-    ctx.describe(|| format!("{frames} frames of 16 samples, mono 8-bit, undeclared length, seektable_frames(1), padding 4096"));
-    let opts = Options::default().block_size(16).unwrap().seektable_frames(1).max_lpc_order(None).unwrap();
-    let mut cur = std::io::Cursor::new(Vec::with_capacity(12 << 20));
-    let mut w = match FlacSampleWriter::new(&mut cur, opts, 8000, 8, 1, None) {
+    use flac_codec::encode::{FlacSampleWriter, Options, SeekTableInterval};
+    use flac_codec::metadata::SeekPoint;
+    let ch = ctx.ch.clone();
+    const MAXP: usize = 932_067;
+    // the cell: how far past the table's capacity, which interval, length declared or discovered
+    let frames: usize = *ch.pick("c09big.frames", &[932_100usize, MAXP + 3, MAXP, 1_000_003, 1_864_140, MAXP + 1]);
+    let ik = ch.draw("c09big.interval", 5);
+    let declared = ch.draw("c09big.declared", 2) == 1;
+    let (opts, interval, what) = match ik {
+        0 | 1 => (Options::default().seektable_frames(1), SeekTableInterval::Frames(1.try_into().unwrap()), "seektable_frames(1)"),
+        2 => (Options::default().seektable_frames(2), SeekTableInterval::Frames(2.try_into().unwrap()), "seektable_frames(2)"),
+        3 => (Options::default().seektable_frames(3), SeekTableInterval::Frames(3.try_into().unwrap()), "seektable_frames(3)"),
+        _ => (Options::default().seektable_seconds(1), SeekTableInterval::Seconds(1.try_into().unwrap()), "seektable_seconds(1)"),
+    };
+    // undeclared: the table is carved from the padding if all of it fits, so the padding is either the
+    // largest possible (room for a full table) or the default (no room)
+    let roomy = declared || ch.draw("c09big.roomy", 4) != 0;
+    ctx.describe(|| format!("{frames} frames of 16 samples, mono 8-bit, {} length, {what}, {} padding", if declared { "declared" } else { "undeclared" }, if roomy && !declared { "2^24-1" } else { "default" }));
+    let opts = opts.block_size(16).unwrap().max_lpc_order(None).unwrap();
+    let opts = if roomy && !declared { opts.padding((1 << 24) - 1).unwrap() } else { opts };
+    let total = (frames * 16) as u64;
+    let mut cur = std::io::Cursor::new(Vec::with_capacity(40 << 20));
+    let mut w = match FlacSampleWriter::new(&mut cur, opts, 8000, 8, 1, declared.then_some(total)) {
         Ok(w) => w,
         Err(e) => return viol("header-untruthful:seektable", format!("constructor failed: {e:?}")),
     };
@@ -555,7 +572,9 @@ pub fn run_c09_big(ctx: &mut Ctx) -> R {
         }
         left -= n;
     }
-    probe("c09_more_frames_than_max_points");
+    if frames > MAXP {
+        probe("c09_more_frames_than_max_points");
+    }
     if let Err(e) = w.finalize() {
         return viol("header-untruthful:seektable", format!("finalize failed with {frames} frames: {e:?}"));
     }
@@ -565,20 +584,83 @@ pub fn run_c09_big(ctx: &mut Ctx) -> R {
         Ok(m) => m,
         Err(e) => return viol("header-untruthful:seektable", format!("metadata unparseable: {e:?}")),
     };
-    if m.si.total != (frames * 16) as u64 {
-        return viol("header-untruthful:total", format!("total {} != {}", m.si.total, frames * 16));
+    if m.si.total != total {
+        return viol("header-untruthful:total", format!("total {} != {}", m.si.total, total));
     }
-    if let Some(pts) = &m.seektable {
-        // whatever was written must be truthful: check the first, a middle and the last point
-        for &(s, o, n) in [pts.first(), pts.get(pts.len() / 2), pts.last()].into_iter().flatten() {
-            if s == u64::MAX {
-                continue;
-            }
-            match refflac::parse_frame(&bytes, m.audio_start + o as usize, Some(&m.si)) {
+    let Some(pts) = &m.seektable else {
+        if declared {
+            return viol("seekpoint-untruthful", "declared length and seek table requested, but none written".to_string());
+        }
+        if roomy && (frames as u64).div_ceil(if ik >= 4 { 500 } else { ik.max(1) }) <= MAXP as u64 {
+            return viol("seekpoint-untruthful", "seek table requested and the padding has room for all of it, but none written".to_string());
+        }
+        probe("c09_no_room_for_table");
+        return Ok(());
+    };
+    // every defined point names a frame: all frames are 16 silent samples, so frame k starts at
+    // sample 16k; its byte offset is checked by parsing a frame header there
+    let mut prev: Option<u64> = None;
+    let mut seen_placeholder = false;
+    let defined: Vec<(u64, u64, u16)> = pts.iter().copied().filter(|p| p.0 != u64::MAX).collect();
+    for (i, &(s, o, n)) in pts.iter().enumerate() {
+        if s == u64::MAX {
+            seen_placeholder = true;
+            continue;
+        }
+        if seen_placeholder {
+            return viol("seekpoint-untruthful", format!("defined point {i} after a placeholder"));
+        }
+        if prev.is_some_and(|p| s <= p) {
+            return viol("seekpoint-untruthful", format!("point {i} sample {s} not ascending"));
+        }
+        prev = Some(s);
+        if s % 16 != 0 || s >= total || n != 16 {
+            return viol("seekpoint-untruthful", format!("point {i} ({s},{o},{n}) does not name a frame of this stream"));
+        }
+        // a full parse of a sample of the points, a sync-code look at all of them
+        let at = m.audio_start + o as usize;
+        if bytes.get(at) != Some(&0xFF) || bytes.get(at + 1).map(|b| b & 0xFE) != Some(0xF8) {
+            return viol("seekpoint-untruthful", format!("point {i} ({s},{o},{n}): no frame starts at byte offset {o}"));
+        }
+        if i % 4099 == 0 || i + 1 == defined.len() {
+            match refflac::parse_frame(&bytes, at, Some(&m.si)) {
                 Ok(f) if f.number == s / 16 && f.block_size == n as u32 => {}
                 other => return viol("seekpoint-untruthful", format!("point ({s},{o},{n}) does not name a frame: {:?}", other.map(|f| (f.number, f.block_size)))),
             }
         }
+    }
+    // regenerating from the finished file with the same interval gives the same defined points
+    match flac_codec::encode::generate_seektable(std::io::Cursor::new(&bytes), interval) {
+        Ok(t) => {
+            let regen: Vec<(u64, u64, u16)> = t
+                .points
+                .iter()
+                .filter_map(|p| match p {
+                    SeekPoint::Defined { sample_offset, byte_offset, frame_samples } => Some((*sample_offset, *byte_offset, *frame_samples)),
+                    _ => None,
+                })
+                .collect();
+            if regen != defined {
+                let at = regen.iter().zip(&defined).position(|(a, b)| a != b);
+                return viol(
+                    "seekpoint-untruthful",
+                    format!("{what}, {frames} frames: regenerated table differs: written {} defined points, regenerated {}, first difference at {at:?}", defined.len(), regen.len()),
+                );
+            }
+            probe("c09_big_regenerated_equal");
+        }
+        Err(e) => return viol("seekpoint-untruthful", format!("generate_seektable failed on the finished file: {e:?}")),
+    }
+    // and the points are the ones the interval rule selects from the frame sequence, up to capacity
+    let step: u64 = match ik {
+        0 | 1 => 1,
+        2 => 2,
+        3 => 3,
+        _ => 500,
+    };
+    let want = ((frames as u64).div_ceil(step) as usize).min(MAXP);
+    if defined.len() != want || defined.iter().enumerate().any(|(i, p)| p.0 != i as u64 * step * 16) {
+        return viol("seekpoint-untruthful", format!("{what}, {frames} frames: {} defined points, the interval selects {want}", defined.len()));
     }
     Ok(())
 }
